@@ -213,7 +213,14 @@ func c06Seq(c *fw.Ctx, i int) {
 	}
 	rec := &recPayloader{inner: c06Payloader(pk)}
 	var p rtp.Packetizer
-	if pv, st := fw.Guard(func() { p = rtp.NewPacketizer(mtu, pt, ssrc, rec, seq, 90000) }); pv != nil {
+	clockRate := uint32(r.PickU64(0, 1, 8000, 48000, 90000, 1<<32-1))
+	if pv, st := fw.Guard(func() {
+		p = rtp.NewPacketizer(mtu, pt, ssrc, rec, seq, clockRate)
+		// an unrelated packetizer created right after it (other SSRC, payload type, MTU): instances are independent
+		o := rtp.NewPacketizer(mtu/2+40, pt^0x55&0x7F, ^ssrc, &codecs.G711Payloader{}, rtp.NewFixedSequencer(start+1000), 8000)
+		o.EnableAbsSendTime(int(pt%14) + 1)
+		o.Packetize([]byte{1, 2, 3}, 7)
+	}); pv != nil {
 		c.Fail("C06/panic/NewPacketizer/"+fw.PanicFunc(st), fmt.Sprintf("NewPacketizer panicked: %v", pv), fw.W("stack", st))
 		return
 	}
